@@ -14,6 +14,7 @@ INVARIANT LawCascadeDet
 INVARIANT LawEmptyWins
 INVARIANT LawFnWins
 INVARIANT LawLabelIsValue
+INVARIANT LawTermMapBeatsTagMap
 INVARIANT LawTagMapBeatsExplicit
 INVARIANT LawExplicitKeyKept
 INVARIANT LawFallbackLast
